@@ -95,6 +95,12 @@ func sliceOfParam(v ssa.Value) (*ssa.Parameter, int64, int64, bool) {
 }
 
 func runC02(c *Ctx) {
+	if !importing {
+		importObls(c, "C10", runC10, "X10", func(k string) bool {
+			return containsAny(k, "(*obfs4Conn).clientHandshake", "parseServerHandshake", "newObfs4ClientConn", "common/ntor")
+		})
+		importObls(c, "C12", runC12, "X12", func(k string) bool { return containsAny(k, "common/csrand") })
+	}
 	p := c.P
 	sharedDigestRule(c, p, "R7", "transports/obfs4", "common/ntor")
 	dial := obfs4Dial(c)
